@@ -27,7 +27,7 @@ ASSUMPTIONS = [
     "tolerances: conditional mean within 2e-3 posterior sd + 1e-4 relative (float32 sampler state; worst deviation seen is reported as max_dev_*), Q and rates relative 1e-3, rate stabiliser in [0, 1e-3]",
     "a failed Cholesky leaves the element unchanged; such events are counted and skipped",
 ]
-REQUIRED = {
+REQUIRED = {"injected_failures_of_the_multivariate_draw": {"quick": 100, "thorough": 2000}, 
     "draws_checked": {"quick": 30000, "thorough": 600000},
     "draws_W0": {"quick": 500, "thorough": 10000}, "draws_V0": {"quick": 800, "thorough": 16000}, "draws_W": {"quick": 500, "thorough": 10000},
     "draws_V2": {"quick": 800, "thorough": 16000}, "draws_V1": {"quick": 800, "thorough": 16000}, "draws_gamma": {"quick": 4000, "thorough": 80000},
@@ -271,7 +271,7 @@ def check_precision_block(rec, mon, name, events, end_state, w):
         rec.check(rel_close(tau_end, np.clip(np.cumprod(np.asarray(end_state["gam"], dtype=np.float64)), C, 1e6), 1e-4), "C08/%s/tau-not-cumprod" % name, lambda: "tau %r is not the clipped cumulative product of gam %r" % (tau_end.tolist(), np.asarray(end_state["gam"]).tolist()), ww)
 
 
-def install(rec, P, model, real_rng):
+def install(rec, P, model, real_rng, fail_prob=0.0, fail_rng=None):
     """attach the monitor to one SparseDrugCombo instance"""
     import numpy.random as npr
     from batchie.models import sparse_combo as SC
@@ -381,6 +381,12 @@ def install(rec, P, model, real_rng):
             if mon.block is None:
                 return orig(Q, mu=mu, mu_part=mu_part, chol_factor=chol_factor, rng=rng)
             pre = mon.snapshot()
+            if fail_prob and fail_rng.random() < fail_prob:
+                # the numeric failure the three embedding blocks are written to survive ("Numeric instability in
+                # Gibbs ...-step"): the element keeps its value and everything else must stay consistent with it
+                mon.event("mvn-failed", {"Q": np.array(Q, dtype=np.float64)}, None, pre)
+                rec.count("injected_failures_of_the_multivariate_draw")
+                raise np.linalg.LinAlgError("injected: matrix is not positive definite")
             mon.in_mvn += 1
             try:
                 out = orig(Q, mu=mu, mu_part=mu_part, chol_factor=chol_factor, rng=rng)
@@ -448,7 +454,10 @@ def run_shard(rec, tier, seed, shard, nshards):
             except Exception as e:
                 rec.did_not_return("build-model", e)
                 continue
-            mon, w = install(rec, P, model, np.random.default_rng(int(rng.integers(0, 2**31))))
+            faulty = bool(ci % 4 == 3)
+            if faulty:
+                rec.count("chains_with_injected_draw_failures")
+            mon, w = install(rec, P, model, np.random.default_rng(int(rng.integers(0, 2**31))), fail_prob=0.15 if faulty else 0.0, fail_rng=np.random.default_rng(int(rng.integers(0, 2**31))))
             w.update(w_info)
             impl = model.wrapped_model
             via_sampling = bool(rng.random() < 0.3)
